@@ -15,7 +15,10 @@ import JubakoModel.Lemmas.Layouts
 import JubakoModel.Lemmas.ContentFile
 import JubakoModel.Lemmas.DirFileG
 import JubakoModel.Lemmas.VerifiesB
-import JubakoModel.Lemmas.Funcs
+import JubakoModel.Lemmas.FuncsBytes
+import JubakoModel.Lemmas.FuncsContent
+import JubakoModel.Lemmas.FuncsCheck
+import JubakoModel.Lemmas.FuncsDir
 
 namespace Jubako
 
@@ -242,5 +245,31 @@ theorem c14_bit_packing_follows_source :
     (∀ cluster blob, contentInfoEncode cluster blob = leBytes (Generated.contentInfoPack cluster blob % 2 ^ 32) 4) ∧
     (∀ bs, contentInfoDecode bs = Generated.contentInfoUnpack (leNat bs)) :=
   ⟨gen_sizedOffsetPack, gen_sizedOffsetUnpack, gen_contentInfoPack, gen_contentInfoUnpack⟩
+
+/-- **The cluster tail the model writes is the byte image of the writes of `serialize_cluster_tail` as
+    translated from the Rust source on every run** (order of the fields, the width rule, the blob count
+    as `u16`, all end offsets but the last). -/
+theorem c14_cluster_tail_follows_source (c : Cluster) (comp raw : Nat) :
+    (c.tail comp raw).encode =
+      (let r := Generated.clusterTailWrites comp c.blobs.length c.dataSize (endOffsets c.blobs 0) raw
+       [UInt8.ofNat r.1.1, UInt8.ofNat r.1.2.1] ++ leBytes r.1.2.2 2 ++ writesBytes r.2) :=
+  gen_clusterTail c comp raw
+
+/-- **Declared pack sizes follow the source** (`gen_packSizes`): what the writer models put in the
+    `packSize` field is what the four creators' bodies compute now. -/
+theorem c14_pack_sizes_follow_source (cip : Nat) :
+    Generated.contentPackSize cip 64 = cip + 37 + 64 ∧
+    Generated.directoryPackSize cip 64 = cip + 37 + 64 ∧
+    Generated.manifestPackSize cip 64 = cip + 37 + 64 ∧
+    Generated.containerPackSize cip 64 = cip + 5 + 64 :=
+  gen_packSizes cip
+
+/-- **Value-store tails follow the source** (`gen_vstoreTail`): the tail bytes the writer model emits
+    for plain and indexed stores are the byte image of the writes of the two `serialize_tail` bodies as
+    translated from `creator/directory_pack/value_store.rs` on every run. -/
+theorem c14_value_store_tails_follow_source (s : VStore) :
+    s.tailBytes = writesBytes (if s.indexed then Generated.indexedStoreTailWrites s.values s.dataSize
+                               else Generated.plainStoreTailWrites s.dataSize) :=
+  gen_vstoreTail s
 
 end Jubako
